@@ -355,6 +355,18 @@ impl IgnoreFilter {
 			// Unwrap will always succeed because every node has an entry.
 			let ignores = trie_node.value().unwrap();
 
+			// The trie matches keys on *string* prefixes: `/o/test` is a prefix of `/o/tests/x`
+			// without being one of its ancestors. Ignores only apply inside their directory.
+			let trie_path = Path::new(trie_node.key().unwrap());
+			if !search_path.starts_with(trie_path) {
+				let Some(trie_parent) = trie_path.parent() else {
+					trace!(?path, ?search_path, "no ignores for path");
+					return Match::None;
+				};
+				search_path = trie_parent;
+				continue;
+			}
+
 			let match_ = if path.strip_prefix(&self.origin).is_ok() {
 				trace!(?path, ?search_path, "checking against path or parents");
 				ignores.gitignore.matched_path_or_any_parents(path, is_dir)
